@@ -15,6 +15,8 @@ package fdpool
 import (
 	"container/list"
 	"sync"
+
+	"github.com/go-git/go-git/v6/internal/verifhook"
 )
 
 // Member is the interface a pool entry must implement. On eviction
@@ -151,9 +153,11 @@ func (p *Pool) Touch(m Member, h *Handle) {
 	if h.elem != nil {
 		p.lru.MoveToFront(h.elem)
 		p.hits++
+		p.verifEmit("TouchHit", m)
 		return
 	}
 	h.elem = p.lru.PushFront(&entry{m: m, h: h})
+	p.verifEmit("TouchRegister", m)
 
 	// Evict if we exceeded capacity. Two-pass victim selection:
 	// walk the LRU back-to-front and prefer the LRU-most Member
@@ -204,7 +208,9 @@ func (p *Pool) Touch(m Member, h *Handle) {
 			// This contrasts with the errors.Join pattern used
 			// elsewhere (e.g. packhandle.doClose) and is recorded
 			// here so the asymmetry doesn't read as an oversight.
+			p.verifEmit("Evict", victimEnt.m)
 			p.mu.Unlock()
+			verifhook.Yield(p, "evict-before-releasenow")
 			err := victimEnt.m.ReleaseNow()
 			p.mu.Lock()
 			if err != nil {
@@ -231,8 +237,10 @@ func (p *Pool) Forget(h *Handle) {
 	if h.elem == nil {
 		return
 	}
+	ent := h.elem.Value.(*entry)
 	p.lru.Remove(h.elem)
 	h.elem = nil
+	p.verifEmit("Forget", ent.m)
 }
 
 // Stats returns a snapshot of the pool's current statistics.
